@@ -45,4 +45,24 @@ theorem turnIs_val_done (ctx : Ctx) (fr : Frame) (c : Expr) (body : List Stmt) (
     (p : Nat) (h1 : st.log = l) (h2 : st.pos = p) (h3 : envGet st.env "self" = none) :
     turnIs ctx fr c body K (.val .unit st) (.done l p) := ⟨st, rfl, h1, h2, h3⟩
 
+/-- `turnIs` with the rest of the loop as an opaque function `W` (so that the proofs can abstract the loop body, which
+    otherwise is repeated in every leaf of a decision tree) -/
+def turnIsW (W : St → Res) (r : Res) : TurnSpec → Prop
+  | .panic => r = .panic
+  | .done log pos => ∃ st : St, r = .val .unit st ∧ st.log = log ∧ st.pos = pos ∧ envGet st.env "self" = none
+  | .next st => r = W st
+
+theorem turnIs_W (ctx : Ctx) (fr : Frame) (c : Expr) (body : List Stmt) (K : Nat) (r : Res) (spec : TurnSpec) :
+    turnIs ctx fr c body K r spec = turnIsW (evalWhile (K + 1) ctx fr c body) r spec := by
+  cases spec <;> rfl
+
+theorem turnIsW_ite (W : St → Res) (r : Res) (p : Prop) [Decidable p] (a b : TurnSpec) :
+    turnIsW W r (if p then a else b) ↔ if p then turnIsW W r a else turnIsW W r b := by
+  split <;> rfl
+theorem turnIsW_panic (W : St → Res) (r : Res) : turnIsW W r .panic ↔ r = .panic := Iff.rfl
+theorem turnIsW_done (W : St → Res) (r : Res) (l : List Value) (p : Nat) :
+    turnIsW W r (.done l p)
+    ↔ ∃ st : St, r = .val .unit st ∧ st.log = l ∧ st.pos = p ∧ envGet st.env "self" = none := Iff.rfl
+theorem turnIsW_next (W : St → Res) (r : Res) (st : St) : turnIsW W r (.next st) ↔ r = W st := Iff.rfl
+
 end ClockBound.Rs
